@@ -51,7 +51,7 @@ class C11(Monitor):
             return
         if s.quirk:
             return
-        if len(s.units) != 1 or (not s.ok and s.trailing >= 9):
+        if not s.exact:
             # bursts: only the one-ACK-per-frame count is judged
             if s.ok:
                 n_set = sum(1 for u in sets if not u.ack)
